@@ -1145,6 +1145,7 @@ func runC10(r *Run) {
 	}
 	old := runtime.GOMAXPROCS(1) // one P: every pooled bank is visible to Pool.Get
 	defer runtime.GOMAXPROCS(old)
+	c10LargePointee(r)
 	nA, nB := r.N(220, 2500), r.N(160, 2000)
 	for i := 0; i < nA; i++ {
 		c10History(r)
@@ -1336,5 +1337,101 @@ func c10ManyZones(r *Run) {
 	}
 	for _, b := range banks {
 		b.Close()
+	}
+}
+
+// c10LargePointee: records that point to values above 64 KiB (sixteen of them make an array of
+// more than a megabyte in the bank), read with every bank closed in the callback, so that each
+// record after the first is decoded into a recycled bank; and the same with every second bank
+// kept.  Whatever a bank does with very large arrays when it is closed, the next record's
+// pointee is there, zeroed outside the decoded fields, and the kept ones stay what they were.
+type c10Page struct {
+	Pad   [96 << 10]byte `json:"-"`
+	ID    int64          `json:"id"`
+	Title string         `json:"title"`
+	Tail  [8]byte        `json:"-"`
+}
+type c10PageRow struct {
+	N    int64    `json:"n"`
+	Page *c10Page `json:"page"`
+}
+
+func c10LargePointee(r *Run) {
+	for _, codec := range codecNames {
+		var buf bytes.Buffer
+		enc, err := avro.NewEncoderFor[c10PageRow](&buf, avro.Compression(codec), 64)
+		if err != nil {
+			r.Fail(-1, "call-failed", "NewEncoderFor[c10PageRow]: "+err.Error(), nil)
+			return
+		}
+		const rows = 9
+		for i := 0; i < rows; i++ {
+			row := c10PageRow{N: int64(i)}
+			if i%4 != 3 {
+				row.Page = &c10Page{ID: int64(100 + i), Title: fmt.Sprintf("page-%d", i)}
+			}
+			if err := enc.Encode(&row); err != nil {
+				r.Fail(-1, "call-failed", "Encode: "+err.Error(), nil)
+				return
+			}
+		}
+		if err := enc.Flush(); err != nil {
+			r.Fail(-1, "call-failed", "Flush: "+err.Error(), nil)
+			return
+		}
+		for _, keepEvery := range []int{0, 2} {
+			desc := map[string]any{"codec": codec, "rows": rows, "pointee_bytes": int(unsafe.Sizeof(c10Page{})), "banks": map[int]string{0: "every bank closed in the callback", 2: "every second bank kept"}[keepEvery]}
+			type kept struct {
+				row  c10PageRow
+				bank *avro.ResourceBank
+			}
+			var keptRows []kept
+			n := 0
+			err := func() (err error) {
+				defer func() {
+					if p := recover(); p != nil {
+						err = fmt.Errorf("PANIC: %v", p)
+					}
+				}()
+				return avro.ReadFile(bytes.NewReader(buf.Bytes()), c10PageRow{}, func(val unsafe.Pointer, rb *avro.ResourceBank) error {
+					row := *(*c10PageRow)(val)
+					i := n
+					n++
+					wantPage := i%4 != 3
+					switch {
+					case row.N != int64(i) || (row.Page != nil) != wantPage:
+						return fmt.Errorf("record %d decodes to n=%d page=%v", i, row.N, row.Page != nil)
+					case wantPage && (row.Page.ID != int64(100+i) || row.Page.Title != fmt.Sprintf("page-%d", i)):
+						return fmt.Errorf("record %d: page id %d title %q", i, row.Page.ID, row.Page.Title)
+					case wantPage && (row.Page.Pad[0] != 0 || row.Page.Pad[len(row.Page.Pad)-1] != 0 || row.Page.Tail != [8]byte{}):
+						return fmt.Errorf("record %d: the part of the pointee the schema does not name is not zero", i)
+					}
+					if wantPage {
+						row.Page.Pad[0], row.Page.Pad[len(row.Page.Pad)-1], row.Page.Tail[7] = 0xAA, 0xBB, 0xCC // what an application may do with its value
+					}
+					if keepEvery > 0 && i%keepEvery == 0 {
+						keptRows = append(keptRows, kept{row, rb})
+					} else {
+						rb.Close()
+					}
+					return nil
+				})
+			}()
+			r.Count("B/large-pointee/" + codec)
+			if err != nil || n != rows {
+				r.Fail(-1, "large-pointee", fmt.Sprintf("records pointing to a %d-byte value, %s: %d of %d records, then %v", unsafe.Sizeof(c10Page{}), desc["banks"], n, rows, err), desc)
+				continue
+			}
+			for _, k := range keptRows {
+				i := int(k.row.N)
+				if k.row.Page != nil && (k.row.Page.ID != int64(100+i) || k.row.Page.Title != fmt.Sprintf("page-%d", i) || k.row.Page.Pad[0] != 0xAA || k.row.Page.Tail[7] != 0xCC) {
+					r.Fail(-1, "mutated-before-close", fmt.Sprintf("record %d was kept with its bank open; after the read its page reads id %d title %q", i, k.row.Page.ID, k.row.Page.Title), desc)
+					break
+				}
+			}
+			for _, k := range keptRows {
+				k.bank.Close()
+			}
+		}
 	}
 }
